@@ -600,6 +600,12 @@ pub fn gen_c08(rng: &mut Rng, tier: Tier) -> MsgScn {
     if rng.bool() {
         body.insert("list".into(), json!(["a", {"b": 1}, ["c", "d"]]));
     }
+    // a confirmation claim that is more than {jwk}: the specification's algorithm knows no member
+    // it would not walk — digests, placeholders and disclosures below `cnf` are processed like
+    // anywhere else
+    if rng.chance(1, 3) {
+        body.insert("cnf".into(), json!({"jwk": crate::keys::jwk_value("ecC"), "aux": {"a": 1, "b": [1, {"c": 2}]}, "note": "x"}));
+    }
     let base = build_sym(rng, &body, &iss[0].iss, now + 86400);
     let mut creds = vec![to_cred(&base, 0)];
     let mut pres = vec![PresSpec::Direct { cred: 0, picks: (0..base.discs.len()).collect() }];
